@@ -477,6 +477,17 @@ func (gb *gcpBalancer) UpdateSubConnState(sc balancer.SubConn, scs balancer.SubC
 		delete(gb.scStates, oldSc)
 		gb.scRefs[sc] = scRef
 		scRef.subConn = sc
+		// Keys bound (or temporarily mapped) to the old SubConn follow the scRef to the fresh one.
+		for k, v := range gb.affinityMap {
+			if v == oldSc {
+				gb.affinityMap[k] = sc
+			}
+		}
+		for k, v := range gb.fallbackMap {
+			if v == oldSc {
+				gb.fallbackMap[k] = sc
+			}
+		}
 		scRef.deCalls = 0
 		scRef.lastResp = time.Now()
 		scRef.refreshing = false
